@@ -16,6 +16,15 @@ PROPS = {
         "design_ref": "DESIGN.md section 7, C01",
         "assumptions": ["scalar operations are exact commutative-ring operations (rounding/overflow not modelled)", "division and remainder are uninterpreted per-element operations"],
     },
+    "C06": {
+        "claimed": True,
+        "technique": "Coq proof (ring/field/nsatz over R) over programs translated from the compiled generic code by symbolic execution",
+        "level_text": "determinant (3 sizes x 2 layouts) is proved equal to the Leibniz permutation expansion for ALL entries, transposition-invariant and multiplicative; the general 4x4 inverse (SIMD 2x2-block algorithm with 24 shuffles, translated from the compiled code) is proved to be a two-sided inverse of EVERY matrix with non-zero determinant in both layouts; the rigid fast inverse for every orthogonal 3x3 block + translation; the affine fast inverse (16 control-flow paths) for every T*R*S with s_j^2 > eps; uniqueness of two-sided inverses gives agreement with the general inverse. No unit test calls any of these functions.",
+        "level_note": "Trusted: Coq kernel; stdlib real-number axioms (sig_forall_dec, sig_not_dec, functional_extensionality_dep, classic) as printed by Print Assumptions; symx translator (self-checked each run); Rust parametricity. Float rounding is not modelled: scalars are exact reals; T::epsilon() is an arbitrary positive real.",
+        "design_ref": "DESIGN.md section 7, C06",
+        "assumptions": ["scalars are exact real numbers", "T::epsilon() is an arbitrary real eps > 0"],
+        "coq_timeout": 1500,
+    },
 }
 
 for _k in PROPS: PROPS[_k].setdefault("selfcheck", {"quick": 200, "thorough": 5000})
